@@ -87,9 +87,11 @@ def pool_content(i):
 
 
 class World:
-    def __init__(self, tmp, save_blobs, out):
+    def __init__(self, tmp, save_blobs, out, data_store=False):
         self.tmp = tmp
         self.out = out
+        self.use_data_store = data_store
+        self.data_store = None      # the DHT node's store whose completed_blobs set the manager shares (as in the daemon)
         self.blob_dir = os.path.join(tmp, "blobfiles")
         self.remote_dir = os.path.join(tmp, "remote")
         self.src_dir = os.path.join(tmp, "src")
@@ -141,14 +143,36 @@ class World:
         from lbry.blob.blob_manager import BlobManager
         self.storage = SQLiteStorage(self.conf, self.db_path, loop=self.loop)
         await self.storage.open()
-        self.bm = BlobManager(self.loop, self.blob_dir, self.storage, self.conf)
+        if self.use_data_store:
+            if self.data_store is None:
+                # a new process: the DHT node's store, already holding an announcement of some other peer
+                from lbry.dht.protocol.data_store import DictDataStore
+                from lbry.dht.peer import PeerManager, make_kademlia_peer
+                self.data_store = DictDataStore(self.loop, PeerManager(self.loop))
+                self.data_store.add_peer_to_blob(make_kademlia_peer(b"\x11" * 48, "1.2.3.4", udp_port=4444, tcp_port=3333),
+                                                 b"\x22" * 48)
+                self.out.label("data_store:new-process")
+            else:
+                self.out.label("data_store:kept-in-process")
+            self.bm = BlobManager(self.loop, self.blob_dir, self.storage, self.conf, self.data_store)
+        else:
+            self.bm = BlobManager(self.loop, self.blob_dir, self.storage, self.conf)
         await self.bm.setup()
         await self.settle()
+
+    def reported(self):
+        """what is reported as completed: the manager's set and, when it shares the DHT node's store, what that store offers"""
+        r = set(self.bm.completed_blob_hashes)
+        if self.data_store is not None:
+            r |= set(self.data_store.completed_blobs)
+        return r
 
     async def shutdown(self, clean=True):
         await self.settle()
         if clean:
             self.bm.stop()
+        else:
+            self.data_store = None      # process death takes the DHT node's store with it
         await self.storage.close()
         self.bm = None
         self.storage = None
@@ -202,7 +226,7 @@ class World:
             await self.start()
             self.check_started(f2, s2, "second-restart")
             files = self.files()
-            completed = set(self.bm.completed_blob_hashes)
+            completed = self.reported()
             if completed != files:
                 out.violate("second-restart:completed-differs-from-files",
                             "reported but no file: %s; file but not reported: %s" % (
@@ -213,7 +237,7 @@ class World:
         out = self.out
         files = self.files()
         rows = self.rows()
-        completed = set(self.bm.completed_blob_hashes)
+        completed = self.reported()
         bad = completed - files
         if bad:
             out.violate(tagp + ":completed-without-file", "reported completed, no file: %s" % sorted(x[:8] for x in bad))
@@ -481,7 +505,7 @@ INVALID_KINDS = ["short", "long", "upper", "nonhex", "suffix", "dotfile", "plain
 
 
 async def _run(case, out, tmp):
-    w = World(tmp, bool(case.get("save_blobs", True)), out)
+    w = World(tmp, bool(case.get("save_blobs", True)), out, bool(case.get("data_store", False)))
     await w.start()
     try:
         bulk = int(case.get("bulk", 0))
@@ -548,14 +572,14 @@ def op_strategy():
 def case_strategy(tier):
     max_ops = 20 if tier == "quick" else 30
     bulk = st.sampled_from([0] * 100 + [499, 500, 501, 502])
-    return st.builds(lambda sb, b, ops: {"save_blobs": sb, "bulk": b, "ops": ops},
+    return st.builds(lambda sb, b, ops, ds: {"save_blobs": sb, "bulk": b, "ops": ops, "data_store": ds},
                      st.sampled_from([True] * 9 + [False]), bulk,
-                     st.lists(op_strategy(), min_size=1, max_size=max_ops))
+                     st.lists(op_strategy(), min_size=1, max_size=max_ops), st.sampled_from([False, False, True]))
 
 
 PARTS = [
     Part("history", case_strategy, run_case, 300, 4000, quick_shards=4, thorough_shards=16,
          essential=("window:file-without-row", "window:file-with-pending-row", "window:finished-row-without-file",
                     "crash:complete", "crash:publish", "crash:delete", "op:delete", "restart:repeated",
-                    "op:drop_invalid", "op:remote", "bulk:gt500")),
+                    "op:drop_invalid", "op:remote", "bulk:gt500", "data_store:kept-in-process", "data_store:new-process")),
 ]
